@@ -57,6 +57,7 @@ def generate(seed, tier, k):
             "stem": r.choice(["result", "out.put", "a"]),
             "override_default": r.random() < 0.3,
             "second_job": r.random() < 0.3,
+            "x0": r.random() < 0.15,
         }
         return doc
     fam = r.choice(["linear", "quadratic", "full", "simplex", "simplex2"])
@@ -266,8 +267,10 @@ def run_job(doc, log):
     seam = H5Seam(dd.get("faults", []), log, eng.fired)
     xmlf = [f for f in dd.get("faults", []) if f["kind"] == "xml_disk_full"]
     dsk = DiskFull(xmlf[0]["at_byte"] if xmlf else 1 << 60, log)
+    xkw = {"x0": w.field} if opts.get("x0") else {}
     with seam, dsk, eng:
         job, exc = eng.run_job(
+            **xkw,
             filename=filename,
             point_data=point_data,
             cell_data=cell_data,
@@ -444,6 +447,14 @@ def run_roundtrip(doc, log):
         raise Violation(PROP, "round-trip", "points differ after write/read", site=f"read.{fmt}.points")
     if b.cells.shape != m.cells.shape or not np.array_equal(b.cells, m.cells):
         raise Violation(PROP, "round-trip", "cells differ after write/read", site=f"read.{fmt}.cells")
+    # default arguments: dim=None keeps the (padded) coordinates of the file, cellblock selects
+    back2 = fem.mesh.read(name, cellblock=0)
+    b2 = back2.meshes[0]
+    if b2.cell_type != m.cell_type or not np.array_equal(b2.cells, m.cells):
+        raise Violation(PROP, "round-trip", "cells differ after write/read with cellblock=0", site=f"read.{fmt}.cellblock")
+    p2 = np.asarray(b2.points)
+    if p2.shape[0] != m.npoints or not np.array_equal(p2[:, : m.dim], m.points) or (p2.shape[1] > m.dim and np.any(p2[:, m.dim :] != 0)):
+        raise Violation(PROP, "round-trip", "points differ after write/read without dim= (in-plane coordinates changed or padding not zero)", site=f"read.{fmt}.points-default-dim")
     log.count("roundtrip-compared")
     return {"signature": f"roundtrip|{m.cell_type}|{fmt}|{doc['mesh'].get('perturb') is not None}", "nontrivial": True}
 
@@ -514,7 +525,9 @@ def run_save(doc, log):
     raised = None
     with dsk:
         try:
-            fem.save(region, field, forces=None if forces is None else forces.copy(), filename=name)
+            extra_p = rng.normal(size=m.npoints)
+            extra_c = rng.normal(size=m.ncells)
+            fem.save(region, field, forces=None if forces is None else forces.copy(), filename=name, point_data={"Temperature": extra_p.copy()}, cell_data={"CellValue": [extra_c.copy()]})
         except meshio.WriteError as e:
             if o["format"] == "vtk" and "spaces in field names" in str(e):
                 raise Discard("format-unsupported")  # legacy VTK cannot carry 'Reaction Force'; nothing is written
@@ -539,6 +552,8 @@ def run_save(doc, log):
             raise Violation(PROP, "save-fidelity", "saved reaction forces differ from the given forces", site="save.forces")
     if not np.array_equal(back.points[:, : m.dim], m.points) or not np.array_equal(back.cells[0].data, m.cells):
         raise Violation(PROP, "save-fidelity", "saved mesh differs", site="save.mesh")
+    if not np.array_equal(np.asarray(back.point_data.get("Temperature")).ravel(), extra_p) or not np.array_equal(np.asarray(back.cell_data.get("CellValue")[0]).ravel(), extra_c):
+        raise Violation(PROP, "save-fidelity", "additional point / cell data given to save() are not written unchanged", site="save.extra-data")
     log.count("save-compared")
     return {"signature": f"save|{m.cell_type}|{o['format']}|{forces is not None}", "nontrivial": True}
 
